@@ -348,7 +348,7 @@ type HCase struct {
 }
 
 func genH(t *rapid.T) (HCase, *env.Env) {
-	tg := gen.Target(t, assetgen.Opts{Audio: []string{"", "aac"}, MinFrames: 25, MaxFrames: 260}, 50, []string{"testpic_2s", "testpic_6s", "testpic_8s", "testpic_alt_seg_dur_stl", "bbb_hevc_ac3_8s", "WAVE/vectors/cfhd_sets/14.985_29.97_59.94/t1/2022-10-17"})
+	tg := gen.Target(t, assetgen.Opts{Audio: []string{"", "aac"}, MinFrames: 25, MaxFrames: 235}, 50, []string{"testpic_2s", "testpic_6s", "testpic_8s", "testpic_alt_seg_dur_stl", "bbb_hevc_ac3_8s", "WAVE/vectors/cfhd_sets/14.985_29.97_59.94/t1/2022-10-17"})
 	e, err := env.Get(tg)
 	if err != nil {
 		t.Fatalf("HARNESS: %v", err)
